@@ -35,6 +35,9 @@ var (
 	store       db.DB
 	genesisSnap map[string][]byte
 	genesisRoot []byte
+	// the "rich" genesis: account C holds 2^80 aer more (passes whose amounts cross a byte-length boundary)
+	richSnap map[string][]byte
+	richRoot []byte
 )
 
 func mustHex(s string) []byte {
@@ -98,6 +101,18 @@ func setup(shard int) {
 	chk(sdb.Commit())
 	genesisRoot = append([]byte{}, sdb.GetRoot()...)
 	genesisSnap = db.VerifHandleSnapshot(store)
+	{
+		sdb := statedb.NewStateDB(store, genesisRoot, false)
+		as, err := state.GetAccountState(acctAddr[nAcct-1], sdb)
+		chk(err)
+		as.AddBalance(big80)
+		chk(as.PutState())
+		chk(sdb.Update())
+		chk(sdb.Commit())
+		richRoot = append([]byte{}, sdb.GetRoot()...)
+		richSnap = db.VerifHandleSnapshot(store)
+		db.VerifHandleRestore(store, genesisSnap)
+	}
 	// the cheap fresh rank must be what the real loader builds from genesis
 	scs, err := statedb.GetSystemAccountState(statedb.NewStateDB(store, genesisRoot, false))
 	chk(err)
@@ -125,9 +140,13 @@ type world struct {
 
 // newWorld resets the store to genesis and re-initialises the package globals
 // of contract/system the way NewChainService / dpos.New do at start-up.
-func newWorld() *world {
+func newWorld(rich bool) *world {
 	db.VerifHandleRestore(store, genesisSnap)
 	w := &world{root: genesisRoot}
+	if rich {
+		db.VerifHandleRestore(store, richSnap)
+		w.root = richRoot
+	}
 	scs, err := statedb.GetSystemAccountState(statedb.NewStateDB(store, w.root, false))
 	chk(err)
 	system.InitSystemParams(scs, 3)
